@@ -26,21 +26,25 @@ def run(tier, seed, replay):
     cov["transitions"] = r.generated
     cov["documents_exported"] = len(rows)
     cov["samples"].append(json.loads(rows[len(rows) // 2]))
-    binp = lib.go_module(scr, "codec", "v2", extra_src=lambda d: lib.vt_bindings(scr, d))
-    moddir = os.path.dirname(binp)
     totals = {}
     seeds = [seed] if tier == "quick" else [seed + i for i in range(5)]
-    for sd in seeds:
-        code, out, err, wall = lib.run_bin(binp, ["-mode", "c13", "-in", rf, "-reserved", resf, "-seed", str(sd)], timeout=3000, cwd=moddir)
-        if code != 0:
-            raise lib.Broken("codec harness (c13) failed: %s" % err[-3000:])
-        for line in out.splitlines():
-            o = json.loads(line)
-            if o["kind"] == "violation":
-                verdict.add(o["key"], o["what"], o["case"])
-            elif o["kind"] == "stats":
-                for k, v in o["stats"].items():
-                    totals[k] = totals.get(k, 0) + v
+    # both module generations: bindings from the current v2 generator, and from the current root generator
+    for gen in ("v2", "root"):
+        binp = lib.go_module(scr, "codec", gen, extra_src=(lambda d: lib.vt_bindings(scr, d)) if gen == "v2" else (lambda d: lib.vt_bindings_root(scr, d)))
+        moddir = os.path.dirname(binp)
+        for sd in seeds:
+            code, out, err, wall = lib.run_bin(binp, ["-mode", "c13", "-in", rf, "-reserved", resf, "-seed", str(sd)], timeout=3000, cwd=moddir)
+            if code != 0:
+                raise lib.Broken("codec harness (c13, %s) failed: %s" % (gen, err[-3000:]))
+            for line in out.splitlines():
+                o = json.loads(line)
+                if o["kind"] == "violation":
+                    key = o["key"] if gen == "v2" else o["key"].replace("C13/", "C13/root/", 1)
+                    verdict.add(key, ("" if gen == "v2" else "[root generation] ") + o["what"], dict(o["case"], gen=gen))
+                elif o["kind"] == "stats":
+                    for k, v in o["stats"].items():
+                        totals[k] = totals.get(k, 0) + v
+    cov["generations"] = ["v2", "root"]
     cov.update(totals)
     cov["traces_validated_against_impl"] = 0
     cov["evaluations"] = totals.get("decodings", 0) + totals.get("constructors", 0)
